@@ -31,6 +31,7 @@ fn run_line(prop: &str, args: &[&str]) -> String {
         "C06" => conn::run(args),
         "C01" | "C12" | "C02" | "C11" if args[0] == "sys" => sysloop::op_sys(args[1].parse().unwrap(), args[2].parse().unwrap(), args[3].parse().unwrap(), args[4]),
         "C08" if args[0] == "resp" || args[0] == "accept" => tr19::run19(args),
+        "C09" if args[0] == "hist" => sess::run14(args),
         "C08" | "C09" | "C10" | "C11" | "C20" | "C01" => hand::run(args),
         "C07" if args[0] == "st" || args[0] == "snd" || args[0] == "tcps" => conn::run(args),
         "C07" => wire::run(args),
@@ -67,7 +68,14 @@ fn gen(prop: &str, rng: &mut Rng, n: usize) -> Vec<String> {
         "C19" => tr19::gen19(rng, n, std::env::args().nth(5).map(|t| t == "thorough").unwrap_or(false)),
         "C18" => tr::gen18(rng, n, std::env::args().nth(5).map(|t| t == "thorough").unwrap_or(false)),
         "C06" => conn::gen(rng, n),
-        "C08" | "C09" | "C10" | "C11" | "C20" | "C01" => hand::gen(rng, n, prop),
+        "C09" => {
+            let mut v = hand::gen(rng, n, prop);
+            // "a peer the client chokes gets no piece data": the choke state the manager has on record must be the one the peer
+            // was told (choking-policy histories incl. repeated bitfields and block requests, read by C14's model)
+            v.extend(sess::gen14(rng, (n / 8).max(20)));
+            v
+        }
+        "C08" | "C10" | "C11" | "C20" | "C01" => hand::gen(rng, n, prop),
         "C07" => wire::gen(rng, n),
         "C12" => {
             // manager histories (events scripted), then the closed loop: the same events produced by real connection tasks
